@@ -439,6 +439,41 @@ class Recorder:
                                        "limit": c.transaction_limit if c.transaction_limit is not None else -1}
         return out
 
+    def blotter_views(self):
+        """multiplicity of every order in the primary map and in each view, lookups, filters (C15)"""
+        from flumine.order.order import OrderStatus as OS
+        out = {}
+        fl = self.flumine
+        for mid, mk in fl.markets.markets.items():
+            b = mk.blotter
+            ent = {}
+            for lab, o in self.visible_orders().items():
+                if o.market_id != mid:
+                    continue
+                cnt = lambda lst: sum(1 for x in lst if x is o)   # noqa: E731
+                ent[lab] = {
+                    "orders": cnt(list(b._orders.values())),
+                    "strategy": cnt(b._strategy_orders.get(o.trade.strategy, [])),
+                    "stratsel": cnt(b._strategy_selection_orders.get((o.trade.strategy, o.selection_id, o.handicap), [])),
+                    "client": cnt(b._client_orders.get(o.client, [])),
+                    "clientstrat": cnt(b._client_strategy_orders.get((o.client, o.trade.strategy), [])),
+                    "trade": cnt(b._trades.get(o.trade, [])),
+                    "livecnt": cnt(b._live_orders),
+                    "byid": bool(fl.markets.get_order(mid, o.id) is o),
+                    "bybet": bool(o.bet_id is not None and b.get_order_bet_id(o.bet_id) is o),
+                    "tradelookup": bool(b.get_trade(o.trade.id) is o.trade),
+                }
+            filt = {}
+            for st in fl.strategies:
+                filt[st.name] = {
+                    "executable": sorted(self.label_order(o) for o in b.strategy_orders(st, order_status=[OS.EXECUTABLE])),
+                    "complete": sorted(self.label_order(o) for o in b.strategy_orders(st, order_status=[OS.EXECUTION_COMPLETE])),
+                    "matched": sorted(self.label_order(o) for o in b.strategy_orders(st, matched_only=True)),
+                    "all": sorted(self.label_order(o) for o in b.strategy_orders(st)),
+                }
+            out[mid] = {"v": ent, "f": filt, "n": len(b)}
+        return out
+
     def lat(self):
         return {"place": int(round(fconfig.place_latency * 1000)), "cancel": int(round(fconfig.cancel_latency * 1000)),
                 "update": int(round(fconfig.update_latency * 1000)), "replace": int(round(fconfig.replace_latency * 1000))}
@@ -448,6 +483,8 @@ class Recorder:
         self.txcalls = []
         if ev == "cb":
             rec["lat"] = self.lat()
+        if ev in ("upd", "end") and self.snapshots and self.flumine is not None:
+            rec["bl"] = self.blotter_views()
         rec["st"] = self.proj() if self.snapshots else {}
         if self.want_extras:
             rec["x"] = self.extras()
@@ -463,7 +500,7 @@ class Scripted(BaseStrategy):
     def __init__(self, rec, spec, **kw):
         self.rec = rec
         self.spec = spec
-        self.script = spec.get("script", {})
+        self.script = dict(spec.get("script", {}))
         super().__init__(**kw)
 
     def check_market_book(self, market, market_book):
@@ -499,7 +536,7 @@ class Scripted(BaseStrategy):
     def _run(self, market, pt, phase):
         rec = self.rec
         key = "%s|%d|%s" % (market.market_id, pt, phase)
-        actions = self.script.get(key, [])
+        actions = self.script.pop(key, [])        # once: a callback may see the same book twice
         try:
             for a in actions:
                 if a["op"] == "txn":
